@@ -52,9 +52,23 @@ func buildC17Shared(g *model.Gen) (*c17Shared, error) {
 	for _, alg := range []string{"ES256", "EdDSA", "ES256"} {
 		s.signers = append(s.signers, keys.New(alg, 0))
 	}
-	for i := 0; i < 6; i++ {
+	for i := 0; i < 8; i++ {
 		p := 1 + i%2
 		a := g.Valid(p)
+		if i >= 6 {
+			// many components; in the second of the two sets several of them
+			// are invalid, each in its own way (the error names index and field)
+			a.HasComps, a.NoMeas, a.Comps = true, nil, nil
+			for j := 0; j < 12; j++ {
+				a.Comps = append(a.Comps, g.ValidComp())
+			}
+			if i == 7 {
+				a.Comps[3].MVal = nil
+				a.Comps[7].Signer = nil
+				a.Comps[9].MVal = model.BP(g.Bytes(5))
+				a.Comps[11].Signer = model.BP(g.Bytes(7))
+			}
+		}
 		if i == 4 {
 			a = g.Valid(2)
 			a.Canon, a.Profile = extprof.ExtP2Name, model.SP(extprof.ExtP2Name)
@@ -67,7 +81,7 @@ func buildC17Shared(g *model.Gen) (*c17Shared, error) {
 		var err error
 		how := "setters"
 		switch {
-		case i == 5 || i == 4:
+		case i == 5 || i == 4 || i >= 6:
 			x, err = obs.Build(a)
 			how = "direct"
 		case i%3 == 0:
@@ -143,7 +157,7 @@ func c17Op(s *c17Shared, r *rand.Rand, gid int, clock func() int64) c17Event {
 		switch r.Intn(8) {
 		case 0:
 			ev.kind = "Validate"
-			fn = func() string { return fmt.Sprint(x.Validate() == nil) }
+			fn = func() string { return fmt.Sprint(x.Validate()) }
 		case 1:
 			ev.kind = "getters"
 			fn = func() string { o := obs.Observe(x); return o.String() }
@@ -163,7 +177,7 @@ func c17Op(s *c17Shared, r *rand.Rand, gid int, clock func() int64) c17Event {
 			ev.kind = "GetSoftwareComponents+component-getters"
 			fn = func() string {
 				scs, err := x.GetSoftwareComponents()
-				out := fmt.Sprint(err == nil)
+				out := fmt.Sprint(err)
 				for _, sc := range scs {
 					out += obs.ObserveComp(sc)
 				}
@@ -383,7 +397,7 @@ func derefB(p *[]byte) []byte {
 }
 
 func runC17(c *mon.Ctx) {
-	c.Rule("worker built with the Go race detector (GORACE halt_on_error=0, reports collected and de-duplicated by the supervisor; any report with a library frame is a violation). Rounds: G in {16,32,64} goroutines x GOMAXPROCS in {2,4,16}; each goroutine runs a seeded random mix of (a) read-only operations on SHARED claims-sets (P1, P2, extension; built by setters, by direct assignment and by decoding; one invalid) - Validate, all getters, component getters, CBOR/JSON encoding validating and not - and on SHARED Evidence (self-signed and decoded): Verify with right and wrong key, GetInstanceID, GetImplementationID, MarshalJSON; (b) operations on PRIVATE objects: NewClaims for every registered profile, setters, decode CBOR / JSON / COSE, validate, read, encode, SetClaims, ValidateAndSign, Verify, and extension-profile encode / decode through the embedding-aware codec including decodes that fail half-way (duplicate key, text key, truncated). Profiles are only ever registered while no goroutine is running: the extension before the first round and one fresh profile before EVERY round, and each round runs its concurrent pass first, so that anything initialised lazily on first use (after a registration) is initialised under concurrency. The same seeds are then run sequentially; every operation's result digest must be identical in the concurrent run (signatures: verifies + payload equality). Call/return times from one monotonic clock give the number of operation pairs that actually overlapped on the same shared object; a round without such overlaps is inconclusive. Monitor state is per goroutine and merged after Wait(). distinct_nontrivial = distinct (round configuration, operation kind, object) signatures")
+	c.Rule("worker built with the Go race detector (GORACE halt_on_error=0, reports collected and de-duplicated by the supervisor; any report with a library frame is a violation). Rounds: G in {16,32,64} goroutines x GOMAXPROCS in {2,4,16}; each goroutine runs a seeded random mix of (a) read-only operations on SHARED claims-sets (P1, P2, extension; built by setters, by direct assignment and by decoding; one invalid; two with 12 software components, in one of which four components are invalid in different ways - the digest of Validate and GetSoftwareComponents is the full error text) - Validate, all getters, component getters, CBOR/JSON encoding validating and not - and on SHARED Evidence (self-signed and decoded): Verify with right and wrong key, GetInstanceID, GetImplementationID, MarshalJSON; (b) operations on PRIVATE objects: NewClaims for every registered profile, setters, decode CBOR / JSON / COSE, validate, read, encode, SetClaims, ValidateAndSign, Verify, and extension-profile encode / decode through the embedding-aware codec including decodes that fail half-way (duplicate key, text key, truncated). Profiles are only ever registered while no goroutine is running: the extension before the first round and one fresh profile before EVERY round, and each round runs its concurrent pass first, so that anything initialised lazily on first use (after a registration) is initialised under concurrency. The same seeds are then run sequentially; every operation's result digest must be identical in the concurrent run (signatures: verifies + payload equality). Call/return times from one monotonic clock give the number of operation pairs that actually overlapped on the same shared object; a round without such overlaps is inconclusive. Monitor state is per goroutine and merged after Wait(). distinct_nontrivial = distinct (round configuration, operation kind, object) signatures")
 	if err := extprof.Register(extprof.ExtP2Name); err != nil {
 		c.Violation("harness/register", err.Error(), nil)
 		return
